@@ -5,17 +5,17 @@ From GW Require Import ETCaps ETCapsProofs.
 Import ListNotations.
 
 (* from EVERY capability set (reachable or not) and for EVERY set of refused blocks / battery presence: whenever the call
-   returns, the sensor groups of its result are exactly those sensors() lists right after the call *)
-Theorem C15_keys_equal_sensors : forall c e reqs keys c', meter_level c <= 2 ->
-  read_runtime_data c e = (reqs, Some keys, c') -> same_groups keys (sensors_groups c') = true.
+   returns (whichever request of an earlier or of this call may have been lost: [lose]), the sensor groups of its result are exactly those sensors() lists right after the call *)
+Theorem C15_keys_equal_sensors : forall c e lose reqs keys c', meter_level c <= 2 ->
+  read_runtime_data c e lose = (reqs, Some keys, c') -> same_groups keys (sensors_groups c') = true.
 Proof. exact keys_equal_sensors. Qed.
 
 (* with a fixed refusal set the first or the second call succeeds *)
 Theorem C15_succeeds_by_second_call : forall c e1 e2, meter_level c <= 2 -> same_refusals e1 e2 = true -> second_call_ok c e1 e2 = true.
 Proof. exact succeeds_by_second_call. Qed.
 
-Theorem C15_filter_level_invariant : forall c e, meter_level c <= 2 ->
-  let '(_, _, c') := read_runtime_data c e in meter_level c <= meter_level c' /\ meter_level c' <= 2.
+Theorem C15_filter_level_invariant : forall c e lose, meter_level c <= 2 ->
+  let '(_, _, c') := read_runtime_data c e lose in meter_level c <= meter_level c' /\ meter_level c' <= 2.
 Proof. exact level_monotone. Qed.
 
 Print Assumptions C15_keys_equal_sensors.
